@@ -383,6 +383,11 @@ func run(c *core.Ctx) error {
 
 	// ---------------- 1. the model decides (in parallel with the stress)
 	// VERIF_C11_DEV=stress is a development aid (mutant trials): only the stress + trace validation
+	if os.Getenv("VERIF_C11_DEV") == "race" { // development aid: only the race-detector part
+		runRace(c)
+		c.Inconclusive("VERIF_C11_DEV=race: only the race detector part was run (development run)")
+		return nil
+	}
 	devStress := os.Getenv("VERIF_C11_DEV") == "stress"
 	var modelWG sync.WaitGroup
 	modelWG.Add(1)
@@ -409,7 +414,7 @@ func run(c *core.Ctx) error {
 	}()
 
 	// ---------------- 2. seeded stress of the real code
-	nSc := c.Pick(72, 900)
+	nSc := c.Pick(72, 600)
 	scs := makeScenarios(c, nSc)
 	a := &agg{resCount: map[string]int{}}
 	t0 := time.Now()
